@@ -457,7 +457,7 @@ reg('C12', 'exploration',
 reg('C14', 'model_checking',
     'Breadth-first search over histories of Interpolator interface calls '
     '(interpolate of several properties, set_interpolation_points, '
-    'update, update_particle_arrays with fresh arrays, move sources, grow the smoothing lengths in place; depth '
+    'update, update_particle_arrays with fresh arrays, move sources, grow the smoothing lengths in place, overwrite the interpolated property in place, targets given as Fortran-ordered 2-D arrays; depth '
     '2 quick / 3 thorough) for 5 methods x 9 kernel/dim pairs x one/two '
     'source arrays x non-periodic/periodic domain; after every call the '
     'values (and for order1 the gradient) at every target are compared '
